@@ -54,6 +54,14 @@ type locConv struct {
 	Lit  string `json:"lit"`
 }
 
+type locRec struct {
+	Idx   int     `json:"idx"`
+	Line  int     `json:"line"`
+	Col   int     `json:"col"`
+	Cause errInfo `json:"cause"`
+	Typed bool    `json:"typed"`
+}
+
 type locParse struct {
 	Err       errInfo   `json:"err"`
 	Panic     string    `json:"panic,omitempty"`
@@ -63,6 +71,8 @@ type locParse struct {
 	Positions []locPos  `json:"positions"`
 	Conv      []locConv `json:"conv"`
 	ConvErr   errInfo   `json:"conv_err"`
+	RecErrs   []locRec  `json:"rec_errs"` // ParseWithRecoveryFromModelTokens: each recovered error
+	RecPanic  string    `json:"rec_panic,omitempty"`
 }
 
 type locOut struct {
@@ -74,6 +84,7 @@ type locOut struct {
 	LineStarts []int        `json:"linestarts,omitempty"`
 	Tbl        [][2]int     `json:"tbl,omitempty"`
 	GTbl       [][2]int     `json:"gtbl,omitempty"`
+	TblStable  bool         `json:"tbl_stable"` // same answers when offsets are queried backwards / in stride order / after the instance read another input
 	PosIndex   int          `json:"pos_index"`
 	PosLine    int          `json:"pos_line"`
 	PosCol     int          `json:"pos_col"`
@@ -141,6 +152,42 @@ func locOne(input []byte, tbl, parse bool) locOut {
 			out.GTbl = append(out.GTbl, [2]int{g.Line, g.Column})
 		}
 	}
+	if tbl {
+		// toSQLPosition must be a function of (input, offset): query order and instance history must not matter
+		out.TblStable = true
+		n := len(input) + 3
+		chk := func(i int) {
+			l := tkz.VerifLoc(i)
+			if i >= 0 && i < len(out.Tbl) && (l.Line != out.Tbl[i][0] || l.Column != out.Tbl[i][1]) {
+				out.TblStable = false
+			}
+		}
+		for i := n - 1; i >= 0; i-- {
+			chk(i)
+		}
+		for _, stride := range []int{7, 3} {
+			for st := 0; st < stride; st++ {
+				for i := st; i < n; i += stride {
+					chk(i)
+				}
+			}
+		}
+		for i := 0; i < n; i++ { // zig-zag
+			chk(i)
+			chk(n - 1 - i)
+		}
+		// another input on the same instance, then this one again
+		other := append([]byte("x\n\ty\n"), input...)
+		guarded(func() { _, _ = tkz.Tokenize(other) })
+		_ = tkz.VerifLoc(len(other))
+		guarded(func() { _, _ = tkz.Tokenize(input) })
+		for i := 0; i < n; i += 2 {
+			chk(i)
+		}
+		for i := 1; i < n; i += 2 {
+			chk(i)
+		}
+	}
 	// the context variant is a second copy of the loop: same spans, same error location
 	{
 		tk2, _ := tokenizer.New()
@@ -181,6 +228,22 @@ func locOne(input []byte, tbl, parse bool) locOut {
 		lp.Cursor, lp.NTok, lp.NPos = st.Pos, st.NTokens, st.NPositions
 		if tree != nil {
 			ast.ReleaseAST(tree)
+		}
+		{
+			p2 := parser.NewParser()
+			var errs []error
+			lp.RecPanic = guarded(func() { _, errs = p2.ParseWithRecoveryFromModelTokens(toks) })
+			for _, e := range errs {
+				re := locRec{Idx: -1}
+				if pe, ok := e.(*parser.ParseError); ok {
+					re.Typed = true
+					re.Idx, re.Line, re.Col = pe.TokenIdx, pe.Line, pe.Column
+					re.Cause = infoOf(pe.Cause)
+				} else {
+					re.Cause = infoOf(e)
+				}
+				lp.RecErrs = append(lp.RecErrs, re)
+			}
 		}
 		out.Parse = lp
 	}
